@@ -11,7 +11,7 @@ VARIABLES l, ref
 vars == <<l, ref>>
 Report(ok, what) == IF ok THEN TRUE ELSE PrintT(what)
 NObj == T[1].nobj
-Init == l = 2 /\ ref = [i \in 1..NObj |-> <<"-", "-">>]
+Init == l = 2 /\ ref = [i \in 1..NObj |-> <<"-", "-", "-">>]
 
 Check(e) ==
   /\ Report(e.json_ok, <<"BAD", "as_json-raised", l>>)
@@ -20,12 +20,16 @@ Check(e) ==
   /\ Report(~e.md_ok \/ e.md_text, <<"BAD", "markdown-is-not-text", l>>)
   /\ Report(e.json = e.json2 /\ e.md = e.md2, <<"BAD", "second-serialisation-differs", l>>)
   /\ Report(~e.rt_ok \/ (e.rt_json = e.json /\ e.rt_md = e.md), <<"BAD", "round-tripped-object-renders-differently", l>>)
-  /\ Report(e.env = 0 \/ ref[e.oid] = <<"-", "-">> \/ ref[e.oid] = <<e.json, e.md>>,
+  /\ Report(e.env = 0 \/ ref[e.oid] = <<"-", "-", "-">> \/ (ref[e.oid][1] = e.json /\ ref[e.oid][2] = e.md),
             <<"BAD", "output-depends-on-process-history-or-hash-seed", l>>)
+  \* rendering under an application-installed text encoder: the same text whether that encoder was installed before or
+  \* after the class was first rendered under the default one
+  /\ Report(e.env = 0 \/ ref[e.oid] = <<"-", "-", "-">> \/ ref[e.oid][3] = e.md_enc,
+            <<"BAD", "output-depends-on-encoder-installed-earlier", l>>)
 
 Next == /\ l <= Len(T)
         /\ Check(T[l])
-        /\ ref' = IF T[l].env = 0 THEN [ref EXCEPT ![T[l].oid] = <<T[l].json, T[l].md>>] ELSE ref
+        /\ ref' = IF T[l].env = 0 THEN [ref EXCEPT ![T[l].oid] = <<T[l].json, T[l].md, T[l].md_enc>>] ELSE ref
         /\ l' = l + 1
 Spec == Init /\ [][Next]_vars
 AllConsumed == TLCGet("stats").diameter = Len(T)
